@@ -172,7 +172,7 @@ PROPS = {
     "C20": K("c20", extra=["-Z", "stubbing"], bounds="no loop; all canonical table addresses x all CR3 x all slot contents; all 512 recursive indices x all pages of the three sizes",
              stubs=["S-addr: VirtAddr::new returns a harness-chosen symbolic canonical address for the table reference (called exactly once, asserted)"],
              trusted_base=["rustc->Kani->CBMC", "CaDiCaL", "overlay O1-O4", "ISA model (mov r,cr3)"]),
-    "C14": K("c14", after=_c14_after, engine="K+M", technique="solver-based: Kani/CBMC bounded model checking + own MIR->SMT encoder (z3/cvc5) for the table state at a refused append", bounds="one append from every valid table state, MAX in {1,2,3,8,9} (unwind MAX+2); all descriptors, all u16 selectors"),
+    "C14": K("c14", extra=["-Z", "stubbing"], stubs=["S-addr (c14_load only): VirtAddr::new -> new_unsafe (CBMC object addresses are not canonical)"], after=_c14_after, engine="K+M", technique="solver-based: Kani/CBMC bounded model checking + own MIR->SMT encoder (z3/cvc5) for the table state at a refused append", bounds="one append from every valid table state, MAX in {1,2,3,8,9} (unwind MAX+2); all descriptors, all u16 selectors"),
     "C15": K("c15", bounds="no loop; all 2^64 TSS addresses, all descriptor bit patterns"),
     "C16": K("c16", bounds="no loop (PAT: unwind 9); all prior register contents x all argument values; ISA model of ~35 instructions is the trusted base",
              assumptions=["architectural domain for decoders that panic on impossible raw values (SFMask/UCet/SCet/Star/Pat read are exercised after a typed write only)",
